@@ -81,6 +81,10 @@ THEOREMS = [
     "Verif.C14.model_cost_is_sum_over_datasets",
     "Verif.C14.cost_is_sum_over_datasets",
     "Verif.C14.cost_by_name",
+    "Verif.C14.scatter_entry_chain_rule",
+    "Verif.C14.jacobian_entry_chain_rule",
+    "Verif.C14.unused_parameter_column_zero",
+    "Verif.C14.jacobianV_eq",
     "Verif.C14.collision_breaks_recovery",
 ]
 RULE = (
